@@ -248,12 +248,84 @@ def oracleBind (c : CaseIn) (chunks : List Bytes) (rkv : KV) : Option String :=
   (chk "xx" gotX).orElse fun _ => (chk "xn" (",".intercalate notes)).orElse fun _ =>
   (chk "xtf" tf).orElse fun _ => (chk "xd" dr).orElse fun _ => chk "xt" pd
 
+/-- split a list at every element satisfying `p` (the separator closes its group) -/
+def splitAfter {α} (p : α → Bool) : List α → List (List α)
+  | [] => []
+  | x :: xs =>
+    match splitAfter p xs with
+    | [] => [[x]]
+    | g :: gs => if p x then [x] :: g :: gs else (x :: g) :: gs
+
+/-- one simple-query cycle (type bytes, ReadyForQuery last): `I Z` or `(T? D* C?)* E? Z` -/
+def cycleOk (ts : List Char) : Bool :=
+  match ts.reverse with
+  | 'Z' :: rest =>
+    let body := rest.reverse
+    if body = ['I'] then true
+    else
+      let noE := match body.reverse with | 'E' :: r => r.reverse | _ => body
+      noE.all (fun c => c = 'T' ∨ c = 'D' ∨ c = 'C' ∨ c = 'G')
+  | _ => false
+
+/-- the writer relations on one statement execution's observation trace -/
+def segmentOk (closedTxt : String) (evs : List String) : Option String :=
+  let rec go (evs : List String) (rows : Nat) (closed : Bool) (completes : Nat) : Option String :=
+    match evs with
+    | [] => none
+    | e :: r =>
+      if e = "r+" then (if closed then some "row-after-completion" else go r (rows + 1) closed completes)
+      else if e.startsWith "w" then
+        (if (e.drop 1).toString = toString rows then go r rows closed completes else some ("written:" ++ e ++ "/rows=" ++ toString rows))
+      else if e = "c+" then (if closed then some "complete-after-completion" else go r rows true (completes + 1))
+      else if e = "e+" then (if closed then some "empty-after-completion" else go r rows true completes)
+      else if e = "g+" then (if closed then some "copyin-after-completion" else go r rows closed completes)
+      else if closed ∧ (e.startsWith "r-" ∨ e.startsWith "c-" ∨ e.startsWith "e-" ∨ e.startsWith "g-") then
+        (if (e.drop 2).toString = closedTxt then go r rows closed completes else some ("not-closed-error:" ++ e))
+      else go r rows closed completes
+  go evs 0 false 0
+
+/-- C05 oracle on the implementation's transcript and handler observations -/
+def oracleSimple (c : CaseIn) (chunks : List Bytes) (rkv : KV) : Option String :=
+  let frames := implFrames chunks
+  let types := frames.map fun f => Char.ofNat f.1.toNat
+  let afterStart := (types.dropWhile (· ≠ 'Z')).drop 1
+  let cycles := splitAfter (· = 'Z') afterStart
+  let nQ := (clientItems (effLimit c.cfg.L) c.inp).countP fun it => match it with | .msg t _ => t = ch 'Q' | _ => false
+  let evs := ((get rkv "ev").splitOn ";").filter (· ≠ "")
+  let closedTxt := "L" ++ hexOf errClosedWriter.text
+  -- statement executions: maximal runs of events after each X
+  let rec segments (evs : List String) (cur : Option (List String)) (acc : List (List String)) : List (List String) :=
+    match evs with
+    | [] => (match cur with | some s => (s.reverse :: acc) | none => acc).reverse
+    | e :: r =>
+      if e.startsWith "X:" then segments r (some []) (match cur with | some s => s.reverse :: acc | none => acc)
+      else if e.startsWith "P:" then segments r none (match cur with | some s => s.reverse :: acc | none => acc)
+      else match cur with
+        | some s => segments r (some (e :: s)) acc
+        | none => segments r none acc
+  let sgs := segments evs none []
+  if get rkv "end" = "w" ∧ cycles.length ≠ nQ then some ("C05:cycles=" ++ toString cycles.length ++ "/queries=" ++ toString nQ)
+  else match cycles.find? (fun cy => !cycleOk cy) with
+    | some cy => some ("C05:cycle-grammar:" ++ String.ofList cy)
+    | none =>
+      match sgs.findSome? (segmentOk closedTxt) with
+      | some why => some ("C05:writer:" ++ why)
+      | none =>
+        let nD := types.countP (· = 'D')
+        let nC := types.countP (· = 'C')
+        let okRows := evs.countP (· = "r+")
+        let okCompletes := evs.countP (· = "c+")
+        if nD ≠ okRows then some ("C05:rows-delivered:D=" ++ toString nD ++ "/r+=" ++ toString okRows)
+        else if nC ≠ okCompletes then some ("C05:completes:C=" ++ toString nC ++ "/c+=" ++ toString okCompletes)
+        else none
+
 def oracle (c : CaseIn) (chunks : List Bytes) (rkv : KV) : Option String :=
   if c.camp = "errors" then oracleErrors c chunks
   else if c.camp = "params" then oracleParams c rkv
   else if c.camp = "paramsd" then oracleParamsDescribe c chunks
   else if c.camp = "accessor" then oracleAccessor c rkv
   else if c.camp = "bind" then oracleBind c chunks rkv
+  else if c.camp = "simple" then oracleSimple c chunks rkv
   else oracleExpect c chunks rkv
 
 def processLine (line : String) : String :=
